@@ -50,6 +50,8 @@ def template(draw):
                                        ["timeout", draw(st.sampled_from(["0.125", "0.25", "0.375"]))], ["cnt", draw(st.integers(1, 4))],
                                        ["m", draw(st.integers(1, 4))],
                                        ["elapsed", draw(st.sampled_from(["0.125", "0.25", "0.5"]))], ["recurred", draw(st.integers(1, 4))],
+                                       # the implicit framer relative goal: `set elapsed|recurred to x` + `if .. >= goal`
+                                       ["goal", draw(st.sampled_from(["elapsed", "recurred"])), draw(st.integers(1, 4))],
                                        ["markgate", draw(st.integers(2, 10)), draw(st.sampled_from(["changed", "updated"]))]]))
         else:
             tr = draw(st.sampled_from([None, ["done"], ["loop", draw(st.integers(2, 9))]]))
@@ -68,7 +70,9 @@ def template(draw):
         rear = {"n": draw(st.integers(1, 3)), "raze": draw(st.sampled_from([None, "all", "first", "last", "last"])),
                 "static_in_f4": draw(st.integers(0, 2)) > 0,
                 # several raze verbs in one pass: more razes than reared clones are left
-                "razes": draw(st.sampled_from([1, 1, 2, 3, 4]))}
+                "razes": draw(st.sampled_from([1, 1, 2, 3, 4])),
+                # raze from an under frame of f4: the razed clones are still entered (and may have completed with `done me`)
+                "inside": draw(st.booleans())}
     # inode-relative data (`m of me`) is only private to a clone when every clone has its own inode:
     # either the template uses it and then gives every static clone a distinct `via` (nested: me-relative)
     # and rears nothing, or it does not use it at all
@@ -158,6 +162,12 @@ def moot_lines(name, body, nested, sched, use_m=False, hier=None):
                 L.append("repeat %d" % tr[1])
             elif tr[0] == "timeout":
                 L.append("timeout %s" % tr[1])
+            elif tr[0] == "goal":
+                if cur != "enter":
+                    L.append("enter")
+                    cur = "enter"
+                L.append("set %s to %s" % (tr[1], 0.125 * tr[2] if tr[1] == "elapsed" else tr[2]))
+                L.append("go next if %s >= goal" % tr[1])
             elif tr[0] == "elapsed":
                 L.append("go next if elapsed >= %s" % tr[1])
             elif tr[0] == "recurred":
@@ -210,12 +220,19 @@ def script(tp, baseline=None):
     L.append("aux org" if baseline == ("rear",) else PLACEHOLDER)
     if rear and rear.get("static_in_f4"):
         L.append("aux org as mine" if baseline is None else PLACEHOLDER)
+    inside = bool(rear and rear.get("inside"))
+    if inside:
+        # the raze runs in an under frame of f4 while f4 (and so every clone it holds) stays entered
+        L.append("frame f4a in f4")
     L.append("go next if elapsed >= %s" % (0.125 * tp["t3"]))
-    L.append("frame f5")
+    L.append("frame f4b in f4" if inside else "frame f5")
     if rear and rear["raze"]:
         L.append("enter")
         for _ in range(rear.get("razes", 1)):
             L.append(("raze %s in frame f4" % rear["raze"]) if baseline is None else PLACEHOLDER)
+    if inside:
+        L.append("go next if elapsed >= 0.125")
+        L.append("frame f5")
     L.append("go f4 if elapsed >= %s" % (0.125 * tp["t4"]) if tp["loop"] else "go f1 if elapsed >= %s" % (0.125 * tp["t4"]))
     sec = tp.get("second")
     if sec:
@@ -380,6 +397,10 @@ def check_case(tp):
                         continue
                     t_first = h1[0][0]
                     t_last = h1[-1][0]
+                    if rear.get("inside") and raze_events:
+                        # razed while f4 stays entered: the original lives on and the freed name may be reared again;
+                        # only the life before the first raze is compared
+                        t_last = min(t_last, min(tk for tk, e in raze_events))
                     ref = [(tk, e) for tk, e in h2 if t_first <= tk <= t_last]
                     # razed in the middle of a tick: compare only complete ticks before the last one
                     h1c = [(tk, e) for tk, e in h1 if tk < t_last]
@@ -436,6 +457,17 @@ def check_case(tp):
             for name in razed_at:
                 if name in final_names and name not in alive:
                     fails.append(("razed-name-not-free", "razed clone %s is still registered (registry %r)\n%s" % (name, sorted(final_names), script(tp))))
+            # a razed clone is out of the frame for good: whatever it had entered must have been exited, also when it
+            # had already completed (`done me`) but was still entered with its main frame
+            for name in sorted(razed_at):
+                bal = {}
+                for tk, e in history(t, name):
+                    if e[0] == "f" and e[3] in ("enter", "exit"):
+                        bal[(e[1], e[2])] = bal.get((e[1], e[2]), 0) + (1 if e[3] == "enter" else -1)
+                left = sorted(k for k, v in bal.items() if v > 0)
+                if left and name not in alive:
+                    fails.append(("razed-clone-left-entered", "razed clone %s: frames %r were entered but never exited (exit actions not run)\n%s" % (
+                        name, ["%s%s" % (name, a[1:]) + "." + b for a, b in left], script(tp))))
             for name in list(names.values()) + ([static_f4] if static_f4 else []):
                 if name not in final_names:
                     fails.append(("raze-removed-non-razeable", "static clone %s disappeared from the registry %r\n%s" % (name, sorted(final_names), script(tp))))
